@@ -58,8 +58,10 @@ pub uninterp spec fn spec_is_assign(t: Seq<char>) -> bool;
 pub fn is_assignment_word(text: &str) -> (r: bool) ensures r == spec_is_assign(text@) { unimplemented!() }
 // which words expand_env may touch, and what one word may look like afterwards
 pub open spec fn env_elig(t: Token) -> bool { t.0@ != "`"@ && t.0@ != "'"@ && t.0@ != "\\"@ && spec_env_in_token(t.1@) }
-pub open spec fn env_tok_ok(o: Token, n: Token) -> bool {
+pub open spec fn env_tok_ok(sh: Shell, o: Token, n: Token) -> bool {
     &&& (!env_elig(o) ==> n.1@ == o.1@ && n.0@ == o.0@)
+    // C10: the new text is the specified single-pass expansion of the old text
+    &&& (env_elig(o) ==> n.1@ == env_expand(sh, o.1@))
     // the tag is kept, or an unquoted word into which the value brought an operator character becomes double-quoted
     &&& (n.0@ == o.0@ || (o.0@.len() == 0 && n.0@ == "\""@ && !has_op(o.1@) && has_op(n.1@)))
     // C13: an operator character in a word that is still unquoted was written there, it did not come from a value
@@ -67,24 +69,56 @@ pub open spec fn env_tok_ok(o: Token, n: Token) -> bool {
     &&& (n.0@.len() == 0 && has_op(n.1@) ==> has_op(o.1@) || spec_is_assign(o.1@))
 }
 pub open spec fn env_lo(b: Seq<(usize, String)>, m: int, n: int) -> int { if 0 <= m < b.len() { b[m].0 as int } else { n } }
+pub open spec fn env_inb(b: Seq<(usize, String)>, k: int) -> bool { exists|m: int| 0 <= m < b.len() && (#[trigger] b[m]).0 as int == k }
+pub open spec fn env_incr(b: Seq<(usize, String)>) -> bool { forall|m: int, n: int| 0 <= m < n < b.len() ==> (#[trigger] b[m]).0 < (#[trigger] b[n]).0 }
+pub proof fn lemma_env_inb_push(b: Seq<(usize, String)>, e: (usize, String))
+    ensures forall|k: int| #[trigger] env_inb(b.push(e), k) == (env_inb(b, k) || k == e.0 as int),
+{
+    assert forall|k: int| #[trigger] env_inb(b.push(e), k) == (env_inb(b, k) || k == e.0 as int) by {
+        let b2 = b.push(e);
+        if env_inb(b, k) { let m0 = choose|m: int| 0 <= m < b.len() && (#[trigger] b[m]).0 as int == k; assert(b2[m0].0 as int == k); }
+        if k == e.0 as int { assert(b2[b.len() as int].0 as int == k); }
+        if env_inb(b2, k) { let m1 = choose|m: int| 0 <= m < b2.len() && (#[trigger] b2[m]).0 as int == k; if m1 < b.len() { assert(b[m1].0 as int == k); } }
+    }
+}
+// between two consecutive entries (and below the first, above the last) no position is in the buffer
+pub proof fn lemma_env_gap(b: Seq<(usize, String)>, m: int, k: int, n: int)
+    requires env_incr(b), 0 <= m <= b.len(), (m > 0 ==> (b[m - 1].0 as int) < k), k < env_lo(b, m, n), forall|j: int| 0 <= j < b.len() ==> (#[trigger] b[j]).0 < n,
+    ensures !env_inb(b, k),
+{
+    if env_inb(b, k) {
+        let j = choose|j: int| 0 <= j < b.len() && (#[trigger] b[j]).0 as int == k;
+        if j < m { if j < m - 1 { assert(b[j].0 < b[m - 1].0); } }
+        else { if j > m { assert(b[m].0 < b[j].0); } }
+    }
+}
 
+// env_in_token: uninterpreted; a reference needs at least the `$` (assumed)
 #[verifier::external_body]
-pub fn env_in_token(token: &str) -> (r: bool) ensures r == spec_env_in_token(token@) { unimplemented!() }
+pub fn env_in_token(token: &str) -> (r: bool) ensures r == spec_env_in_token(token@), r ==> token@.len() > 0 { unimplemented!() }
 // ---- regex + process environment for expand_one_env ----
 pub struct VxRegex { pub id: i32 }
 pub struct VxCap { pub g1: String, pub g2: String, pub g3: String }
-pub uninterp spec fn spec_re_is_match(ptn: Seq<char>, t: Seq<char>) -> bool;
-pub uninterp spec fn spec_re_caps(ptn: Seq<char>, t: Seq<char>) -> Seq<(Seq<char>, Seq<char>, Seq<char>)>;
-pub uninterp spec fn re_ptn(r: VxRegex) -> Seq<char>;
+// the two reference patterns of expand_one_env ($NAME form, ${NAME} form): matching is uninterpreted
+pub uninterp spec fn spec_m(which: int, t: Seq<char>) -> bool;
+pub uninterp spec fn spec_cap(which: int, t: Seq<char>) -> (Seq<char>, Seq<char>, Seq<char>);
+pub uninterp spec fn re_which(r: VxRegex) -> int;
 #[verifier::external_body]
-pub fn vx_regex(ptn: &str) -> (r: VxRegex) ensures re_ptn(r) == ptn@ { unimplemented!() }
+pub fn vx_regex1(ptn: &str) -> (r: VxRegex) ensures re_which(r) == 1 { unimplemented!() }
+#[verifier::external_body]
+pub fn vx_regex2(ptn: &str) -> (r: VxRegex) ensures re_which(r) == 2 { unimplemented!() }
 pub open spec fn cap_view(c: VxCap) -> (Seq<char>, Seq<char>, Seq<char>) { (c.g1@, c.g2@, c.g3@) }
+// byte length (String::len): only used to decide which reference starts first
+pub uninterp spec fn blen(s: Seq<char>) -> int;
+#[verifier::external_body]
+pub fn vx_blen(s: &String) -> (r: usize) ensures r as int == blen(s@) { s.len() }
 impl VxRegex {
+    // Regex::captures: Some iff the pattern matches; group 3 (the text after the reference) is a proper suffix of the text
+    // (both patterns consume at least the `$`): ASSUMED, validated on a bounded set by axcheck `env_ref`
     #[verifier::external_body]
-    pub fn is_match(&self, t: &str) -> (r: bool) ensures r == spec_re_is_match(re_ptn(*self), t@) { unimplemented!() }
-    #[verifier::external_body]
-    pub fn captures_iter(&self, t: &str) -> (r: Vec<VxCap>)
-        ensures r@.map_values(|c: VxCap| cap_view(c)) == spec_re_caps(re_ptn(*self), t@), r@.len() == spec_re_caps(re_ptn(*self), t@).len()
+    pub fn captures(&self, t: &str) -> (r: Option<VxCap>)
+        ensures r.is_some() == spec_m(re_which(*self), t@),
+            r.is_some() ==> cap_view(r.unwrap()) == spec_cap(re_which(*self), t@) && r.unwrap().g3@.len() < t@.len()
     { unimplemented!() }
 }
 #[verifier::external_body]
@@ -111,10 +145,22 @@ pub open spec fn ref_value(sh: Shell, key: Seq<char>) -> Seq<char> {
     else if smap(sh.envs).contains_key(key) { smap(sh.envs)[key] }
     else { Seq::empty() }
 }
-pub open spec fn assemble(sh: Shell, caps: Seq<(Seq<char>, Seq<char>, Seq<char>)>, n: int) -> Seq<char>
-    decreases n
+// ONE STEP: the leftmost reference of t is replaced by its value; what is left to look at is only the text after it
+pub open spec fn one_env(sh: Shell, t: Seq<char>) -> (Seq<char>, Seq<char>) {
+    if !spec_m(1, t) && !spec_m(2, t) { (t, Seq::empty()) }
+    else {
+        let c = if spec_m(1, t) && (!spec_m(2, t) || blen(spec_cap(1, t).0) <= blen(spec_cap(2, t).0)) { spec_cap(1, t) } else { spec_cap(2, t) };
+        (c.0 + ref_value(sh, c.1), c.2)
+    }
+}
+// THE SPECIFIED EXPANSION of a word (property C10): every reference is replaced by the current value, left to right, and an
+// inserted value is never looked at again: it is appended, the scan continues with the text after the reference
+pub open spec fn env_expand(sh: Shell, t: Seq<char>) -> Seq<char>
+    decreases t.len()
 {
-    if n <= 0 { Seq::empty() } else { assemble(sh, caps, n - 1) + caps[n - 1].0 + ref_value(sh, caps[n - 1].1) + caps[n - 1].2 }
+    if !spec_env_in_token(t) || t.len() == 0 { t }
+    else if one_env(sh, t).1.len() < t.len() { one_env(sh, t).0 + env_expand(sh, one_env(sh, t).1) }
+    else { one_env(sh, t).0 }
 }
 #[verifier::external_body]
 pub fn vx_home_replace(s: &str) -> (r: String) { unimplemented!() }
@@ -278,22 +324,20 @@ get_env = Fn(S, 'get_env', impl='Shell', pre_rewrites=HME, ret='r',
 
 expand_one_env = Fn(S, 'expand_one_env', ret='r',
     pre_rewrites=HME + [
-        Rw(r'Regex::new\((r"[^"]*")\)\.unwrap\(\)', r'vx_regex(\1)', regex=True, rule='R6',
-           why='Regex::new(literal).unwrap() through a shim: the pattern is a valid literal (trusted), matching is uninterpreted'),
+        Rw(r'Regex::new\((r"[^"]*")\)\.unwrap\(\)', r'vx_regex1(\1)', regex=True, count=1, rule='R6',
+           why='Regex::new(literal).unwrap() through a shim: the pattern is a valid literal (trusted), matching is uninterpreted ($NAME form)'),
+        Rw(r'Regex::new\((r"[^"]*")\)\.unwrap\(\)', r'vx_regex2(\1)', regex=True, count=1, rule='R6',
+           why='same for the ${NAME} form'),
+        Rw(r'\b(c[12])\[1\]\.len\(\)', r'vx_blen(&\1.g1)', regex=True, rule='R6', why='byte length of capture group 1 (only compared)'),
         Rw(r'cap\[(\d)\]\.to_string\(\)', r'vx_s(&cap.g\1)', regex=True, rule='R6', why='capture group k as a field of the shim capture'),
-        Rw(r'unsafe \{\s*(?:/\*@L\d+\*/)?\s*let val = libc::getpid\(\);(?:/\*@L\d+\*/)?\s*result\.push_str\(format!\("\{\}\{\}", head, val\)\.as_str\(\)\);(?:/\*@L\d+\*/)?\s*\}',
-           'let val = vx_getpid(); result.push_str(vx_concat2(&head, &vx_int_to_string(val as i64)).as_str());', regex=True, rule='R8',
+        Rw(r'unsafe \{\s*(?:/\*@L\d+\*/)?\s*let val = libc::getpid\(\);(?:/\*@L\d+\*/)?\s*done\.push_str\(format!\("\{\}\{\}", head, val\)\.as_str\(\)\);(?:/\*@L\d+\*/)?\s*\}',
+           'let val = vx_getpid(); done.push_str(vx_concat2(&head, &vx_int_to_string(val as i64)).as_str());', regex=True, rule='R8',
            why='libc::getpid() through a shim (unsafe block removed); Display for i32 through vx_int_to_string'),
     ],
     int_args=('sh.previous_status',),
-    loop_kinds={0: 'value', (0, 'clone'): 'vx_clone_cap(&{})'},
-    ensures=[('C10.one_env.assembly_is_head_value_tail',
-              'r@ == token@ || (exists|ptn: Seq<char>| spec_re_is_match(ptn, token@) && '
-              'r@ == assemble(*sh, #[trigger] spec_re_caps(ptn, token@), spec_re_caps(ptn, token@).len() as int))')],
-    loops={0: Loop(invariant=[
-        ('C10.inv.one_env.assembly', 'result@ == assemble(*sh, __v0@.map_values(|c: VxCap| cap_view(c)), __i0 as int)'),
-    ])},
-    hints={'loop-0-body-entry': 'assert(__v0@.map_values(|c: VxCap| cap_view(c))[__i0 as int] == cap_view(__v0@[__i0 as int]));'},
+    ensures=[('C10.one_env.leftmost_reference_replaced_by_its_value_rest_returned_separately',
+              'r.0@ == one_env(*sh, token@).0 && r.1@ == one_env(*sh, token@).1'),
+             ('C10.one_env.rest_is_shorter', 'r.1@.len() < token@.len() || r.1@.len() == 0')],
 )
 
 ALIAS_MATCH = 'is_head_at(tokens@, K) && smap(sh.aliases).contains_key(tokens@[K].1@) && smap(sh.aliases)[tokens@[K].1@].len() > 0'
@@ -399,26 +443,36 @@ expand_env = Fn(S, 'expand_env', rewrites=TYRW, props=('C10',),
                              why='IndexMut + tuple-field assignment through a shim (frame: only that token tag changes)')],
     let_types={'buff': 'Vec<(usize, String)>'},
     ensures=[('C10+C13+C01.expand_env.words_change_only_as_specified',
-              'final(tokens)@.len() == old(tokens)@.len() && forall|k: int| 0 <= k < old(tokens)@.len() ==> env_tok_ok(old(tokens)@[k], #[trigger] final(tokens)@[k])')],
+              'final(tokens)@.len() == old(tokens)@.len() && forall|k: int| 0 <= k < old(tokens)@.len() ==> env_tok_ok(*sh, old(tokens)@[k], #[trigger] final(tokens)@[k])')],
     loops={
         0: Loop(invariant=[
             ('C10+C13+C01.inv.expand_env.idx', 'idx == __i0 && tokens@ == old(tokens)@'),
             ('C10+C13+C01.inv.expand_env.buff',
-             'forall|m: int| 0 <= m < buff@.len() ==> (#[trigger] buff@[m]).0 < __i0 && env_elig(tokens@[buff@[m].0 as int])'),
-            ('C10+C13.inv.expand_env.buff_increasing', 'forall|m: int, n: int| 0 <= m < n < buff@.len() ==> (#[trigger] buff@[m]).0 < (#[trigger] buff@[n]).0'),
+             'forall|m: int| 0 <= m < buff@.len() ==> (#[trigger] buff@[m]).0 < __i0 && env_elig(tokens@[buff@[m].0 as int]) '
+             '&& buff@[m].1@ == env_expand(*sh, tokens@[buff@[m].0 as int].1@)'),
+            ('C10+C13.inv.expand_env.buff_increasing', 'env_incr(buff@)'),
+            ('C10.inv.expand_env.every_eligible_word_is_rewritten', 'forall|k: int| 0 <= k < __i0 && env_elig(#[trigger] tokens@[k]) ==> env_inb(buff@, k)'),
         ]),
-        1: Loop(decreases='_token@.len()'),
+        # the scan: what has been produced so far, followed by the specified expansion of what is left, is the specified expansion of the word
+        1: Loop(invariant=[('C10.inv.expand_env.single_pass', '_token@ + env_expand(*sh, rest@) == env_expand(*sh, token@)')],
+                decreases='rest@.len()'),
         2: Loop(invariant=[
             ('C10+C13+C01.inv.expand_env.frame',
              'tokens@.len() == old(tokens)@.len() '
              '&& (forall|k: int| 0 <= k < env_lo(buff@, __i2 as int, tokens@.len() as int) ==> (#[trigger] tokens@[k]).0@ == old(tokens)@[k].0@ && tokens@[k].1@ == old(tokens)@[k].1@) '
-             '&& (forall|k: int| env_lo(buff@, __i2 as int, tokens@.len() as int) <= k < tokens@.len() ==> env_tok_ok(old(tokens)@[k], #[trigger] tokens@[k]))'),
+             '&& (forall|k: int| env_lo(buff@, __i2 as int, tokens@.len() as int) <= k < tokens@.len() ==> env_tok_ok(*sh, old(tokens)@[k], #[trigger] tokens@[k]))'),
             ('C10+C13+C01.inv.expand_env.buff2',
-             'forall|m: int| 0 <= m < buff@.len() ==> (#[trigger] buff@[m]).0 < tokens@.len() && env_elig(old(tokens)@[buff@[m].0 as int])'),
-            ('C10+C13.inv.expand_env.buff_increasing2', 'forall|m: int, n: int| 0 <= m < n < buff@.len() ==> (#[trigger] buff@[m]).0 < (#[trigger] buff@[n]).0'),
+             'forall|m: int| 0 <= m < buff@.len() ==> (#[trigger] buff@[m]).0 < tokens@.len() && env_elig(old(tokens)@[buff@[m].0 as int]) '
+             '&& buff@[m].1@ == env_expand(*sh, old(tokens)@[buff@[m].0 as int].1@)'),
+            ('C10+C13.inv.expand_env.buff_increasing2', 'env_incr(buff@)'),
+            ('C10.inv.expand_env.every_eligible_word_is_rewritten2', 'forall|k: int| 0 <= k < tokens@.len() && env_elig(#[trigger] old(tokens)@[k]) ==> env_inb(buff@, k)'),
         ]),
     },
-    hints={'loop-2-body-entry': 'lemma_quote_lit();'})
+    hints={'before-text:buff.push((idx, _token));': 'lemma_env_inb_push(buff@, (idx, _token));',
+           'loop-1-exit': 'assert(env_expand(*sh, rest@) == rest@);',
+           'loop-2-body-entry': 'lemma_quote_lit(); '
+               'assert forall|k: int| (buff@[__i2 - 1].0 as int) < k < env_lo(buff@, __i2 as int, tokens@.len() as int) implies !env_inb(buff@, k) by { lemma_env_gap(buff@, __i2 as int, k, tokens@.len() as int); }',
+           'loop-2-exit': 'assert forall|k: int| 0 <= k < env_lo(buff@, 0, tokens@.len() as int) implies !env_inb(buff@, k) by { lemma_env_gap(buff@, 0, k, tokens@.len() as int); }'})
 expand_env.props = ('C10',)
 
 PASSES = ['expand_alias(sh, tokens)', 'expand_home(tokens)', 'expand_env(sh, tokens)', 'expand_brace(tokens)', 'expand_glob(tokens)',
